@@ -15,6 +15,30 @@ CHECKS = {
              "prefixes and through wildcard text, port sets, flag/log tokens, sequence) and the rendered line read independently denotes the same packets. Checked "
              "natively (bounded, not proved) on the gen_ace grammar x platforms x version tables x switches.",
         note="Oracle: spec/cisco_ref.py, spec/ref_tables.py, spec/sets.py (hand written, independent). Known finding: protocol 0 <-> ip conflation (tests pin it)."),
+    "C03": dict(
+        level="other", design_ref="DESIGN.md 5/C03",
+        technique="contracts on Ace.shadow_of and its six field tests + helpers.subnet_of discharged by own VC generator (z3/cvc5); lemmas in SMT; bounded pair checking with exact set algebra",
+        text="Proof obligations (all object states satisfying the class invariants): shadow_of == True implies same action and field-wise inclusion of protocol, "
+             "address-network, port and flag sets (sound), a skipped address kind involved forces False (skip), helpers.subnet_of is exact; lemmas L13.sound, L13.bits.*, "
+             "L3.product, L3.skipmono lift this to packet sets and to monotonicity in skip. Bounded (not proved): the object views are established by Ace(line) - all "
+             "ordered pairs of 47 ACE classes (groups with members, empty groups, non-contiguous wildcards, empty port sets, flags) x 5 skip lists x 2 platforms.",
+        note="Assumed: Inv(Port), Inv(Address) class invariants; Protocol.name ip<=>0 (C09); AddressBase.ipnets ghost value; IPv4Network.subnet_of = prefix containment; "
+             "match-any flag semantics. " + TB),
+    "C04": dict(
+        level="other", design_ref="DESIGN.md 5/C04",
+        technique="SMT lemma L4.firstmatch over C03's discharged soundness contract + bounded contract checking of Acl.delete_shadow",
+        text="Lemma (proved for arbitrary rule lists and packets): when every removed rule has a rule above it that matches every packet it matches, the first matching "
+             "rule of a packet is never removed, so every decision is unchanged. Its hypothesis is C03's proved soundness plus the contract of delete_shadow, which is "
+             "checked natively (bounded) on all ACLs of <= 3/4 items over an 11-kind alphabet, flat / numbered / grouped: report == shading() before, subsequence, only "
+             "covered ACEs removed (decided by set algebra), remarks/order/numbers/grouping kept, second call returns {}.",
+        note="delete_shadow's text-index algorithm itself is not proved (object-graph bookkeeping, copy()). " + TB),
+    "C11": dict(
+        level="other", design_ref="DESIGN.md 5/C11",
+        technique="contracts (exact/skip clauses) on Ace.shadow_of and field tests discharged by own VC generator; bounded exactness and report checking",
+        text="Proof obligations: on group-free entries with non-empty bottom port sets shadow_of is True whenever action, protocol, address networks, ports and flags "
+             "are field-wise included and no skipped kind is involved, for every skip list (exact + skip clauses; helpers.subnet_of exact). Bounded: all ordered pairs "
+             "of group-free classes x 5 skip lists decided by set algebra; Acl.shading == specification from real pairwise answers on all short ACLs.",
+        note="L13.exact (network-wise containment of two single wildcards <=> set inclusion) is covered by the bounded pairs only. " + TB),
     "C08": dict(
         level="other", design_ref="DESIGN.md 5/C08",
         technique="contracts on Port._items_to_ports/_ports_to_items discharged by own VC generator (z3/cvc5); codec and setter text path by bounded contract checking",
